@@ -33,7 +33,7 @@ table = ('\n| seed | what the change does | confirmed (tests pass, demo fails on
 p = os.path.join(VERIF, 'DESIGN.md')
 s = open(p).read()
 if '<!-- SEEDTABLE-BEGIN -->' in s:
-    s = re.sub(r'<!-- SEEDTABLE-BEGIN -->.*?<!-- SEEDTABLE-END -->', '<!-- SEEDTABLE-BEGIN -->' + table + '<!-- SEEDTABLE-END -->', s, flags=re.S)
+    s = re.sub(r'<!-- SEEDTABLE-BEGIN -->.*?<!-- SEEDTABLE-END -->', lambda m: '<!-- SEEDTABLE-BEGIN -->' + table + '<!-- SEEDTABLE-END -->', s, flags=re.S)
 else:
     s = s.replace('SEEDTABLE', '\n<!-- SEEDTABLE-BEGIN -->' + table + '<!-- SEEDTABLE-END -->\n', 1)
 open(p, 'w').write(s)
